@@ -99,12 +99,28 @@ static void part_cplx(Ctx& ctx, uint64_t m, const CpuCfg& cfg) {
 }
 
 static void part_dot(Ctx& ctx, uint64_t nrows, int range) {
-  std::string id = sfmt("reim4 dot products|nrows=%llu|values=%s", (unsigned long long)nrows, range ? "special" : "dense");
+  std::string id = sfmt("reim4 dot products|nrows=%llu|values=%s", (unsigned long long)nrows, range == 2 ? "structured-rows" : range ? "special" : "dense");
   if (!ctx.want(id)) return;
   ctx.begin_case(id);
   GBuf u(64 * nrows, 8), v(128 * nrows, 16), d(128, 24);
-  for (uint64_t i = 0; i < 8 * nrows; ++i) u.as<double>()[i] = val(i + 7 * nrows, range);
-  for (uint64_t i = 0; i < 16 * nrows; ++i) v.as<double>()[i] = val(i + 1000 + nrows, range);
+  for (uint64_t i = 0; i < 8 * nrows; ++i) u.as<double>()[i] = val(i + 7 * nrows, range == 2 ? 0 : range);
+  for (uint64_t i = 0; i < 16 * nrows; ++i) v.as<double>()[i] = val(i + 1000 + nrows, range == 2 ? 0 : range);
+  if (range == 2) {
+    // structured rows of u (a value-keyed shortcut - "this row contributes nothing" - must be right on them): purely real, purely
+    // imaginary, the same small integer in every slot, powers of two, zero real parts with SOME zero imaginary parts, all zero
+    for (uint64_t r = 0; r < nrows; ++r) {
+      double* w = u.as<double>() + 8 * r;
+      switch ((r + nrows) % 7) {
+        case 0: for (int k = 0; k < 4; ++k) w[4 + k] = 0.0; break;
+        case 1: for (int k = 0; k < 4; ++k) w[k] = 0.0; break;
+        case 2: for (int k = 0; k < 4; ++k) { w[k] = 2.0; w[4 + k] = 1.0; } break;
+        case 3: for (int k = 0; k < 4; ++k) { w[k] = ldexp(1.0, 3 * k - 4); w[4 + k] = -ldexp(1.0, 7 - 5 * k); } break;
+        case 4: { const double im[4] = {0.0, 1.25, -2.5, 3.0}; for (int k = 0; k < 4; ++k) { w[k] = 0.0; w[4 + k] = im[k]; } break; }
+        case 5: for (int k = 0; k < 8; ++k) w[k] = (k & 1) ? -0.0 : 0.0; break;
+        default: break;  // dense
+      }
+    }
+  }
   std::string err;
   for (int av = 0; av < 2 && err.empty(); ++av) {
     // one column: v holds nrows blocks of 8
@@ -190,7 +206,7 @@ int main(int argc, char** argv) {
   const uint64_t mmax = th ? 65536 : 4096;
   for (uint64_t m = mmax; m >= 4; m /= 2) { uint64_t nb = m / 4, step = std::max<uint64_t>(1, std::min<uint64_t>(nb, 64)); for (uint64_t b = 0; b < nb; b += step) items.push_back({0, m, b, std::min(nb, b + step), 0, CFG_NATIVE}); }
   for (uint64_t m = 65536; m >= 4; m /= 2) for (auto& c : cfgs(th)) items.push_back({1, m, 0, 0, 0, c});
-  for (uint64_t nr = 0; nr <= (th ? 64u : 16u); ++nr) for (int rg = 0; rg < 2; ++rg) items.push_back({2, nr, 0, 0, rg, CFG_NATIVE});
+  for (uint64_t nr = 0; nr <= (th ? 64u : 16u); ++nr) for (int rg = 0; rg < 3; ++rg) items.push_back({2, nr, 0, 0, rg, CFG_NATIVE});
   items.push_back({3, 0, 0, 0, 0, CFG_NATIVE});
   for (int k = 0; k < npw; ++k) for (uint64_t m = 4096; m >= pw[k].minm; m /= 2) { for (int rg = 0; rg < 2; ++rg) items.push_back({4, m, 0, 0, k * 2 + rg, CFG_NATIVE}); if (m == 1) break; }
   ctx.parallel(items.size(), [&](uint64_t i) {
